@@ -162,9 +162,19 @@ def wfQuoted (n : Str) : Bool := n.all nameChar
 /-- string literal: no `"` and no line break -/
 def wfStr (s : Str) : Bool := s.all fun c => c != '"' && !isLineSep c
 
+/-- The largest number of decimal digits an integer literal may have: CPython's default limit on
+`str` → `int` conversion (`sys.int_info.default_max_str_digits`; `int()` raises `ValueError`
+beyond it and the parser reports a syntax error, see `proposed_fixes/C15-3`).  That the running
+interpreter's limit (`Gen.intMaxStrDigits`, regenerated on every run) is this number is a proof
+obligation (`Lemmas/BstFuel.lean: int_limit`). -/
+def intDigitLimit : Nat := 4300
+
+/-- integer literal: at most `intDigitLimit` digits -/
+def wfInt (v : Int) : Bool := decide ((Nat.toDigits 10 v.natAbs).length ≤ intDigitLimit)
+
 mutual
   def wfTok : Tok → Bool
-    | .int _ => true
+    | .int v => wfInt v
     | .str s => wfStr s
     | .quoted n => wfQuoted n
     | .name n => wfName n
@@ -208,6 +218,9 @@ inductive Reading where
   | braceExpected (i : Nat)
   /-- the text ends inside a command (missing group or unclosed `{`) -/
   | prematureEnd
+  /-- inside a group, behind lexeme `i - 1`, stands text that cannot begin any token
+  (only produced by `readBad`) -/
+  | lexicalError (i : Nat)
   deriving Repr
 
 structure RState where
@@ -290,7 +303,67 @@ def eofLine (text : Str) : Nat := max 1 (splitLines text).length
 def wfLex : Lex → Bool
   | .word w => (match w with | [] => false | _ :: _ => w.all nameChar)
   | .str s => wfStr s
+  | .int v => wfInt v
   | _ => true
+
+/-! ### Lexically broken text
+
+Text that is no lexeme at all.  A `#` begins an integer only when a decimal digit, or `-` and a
+decimal digit, follows (ASCII digits: `٣` and `²` are none); a `"` begins a string only when
+another `"` follows somewhere in the rest of the source.  Anything else starting with `#` or `"`
+cannot begin a token, whatever comes after it. -/
+
+/-- the text continues an integer after its `#`: a digit, or `-` and a digit -/
+def intStart : Str → Bool
+  | c :: r => isDigit c || (c == '-' && (match r with | d :: _ => isDigit d | [] => false))
+  | [] => false
+
+/-- `t` (the whole rest of the source) cannot begin a token: `#` without an integer behind it, or
+a `"` that is never closed -/
+def lexBad : Str → Bool
+  | '#' :: r => !intStart r
+  | '"' :: r => !r.contains '"'
+  | _ => false
+
+/-- Reference reading of a lexeme sequence that is followed by text that cannot begin a token:
+the lexemes are read as by `readFrom`; where they end, the offending text stands where a command
+name, the `{` of an argument group, or a token of an open group is expected. -/
+def readBadFrom (s : RState) (i : Nat) : List Lex → Reading
+  | [] =>
+    match s.stack with
+    | _ :: _ => .lexicalError i
+    | [] => if s.cur.isSome then .braceExpected i else .badCommand i
+  | l :: ls =>
+    match s.step i l with
+    | .error r => r
+    | .ok s' => readBadFrom s' (i + 1) ls
+
+def readBad (ls : List Lex) : Reading := readBadFrom {} 0 ls
+
+/-- 1-based line on which text appended to `render none ls gaps` starts -/
+def tailLine (ls : List Lex) (gaps : List Gap) : Nat := 1 + breaks (render none ls gaps)
+
+/-- the lexemes of groups that are still open, outermost first: each `{` with the complete tokens
+read in it so far -/
+def openLexemes : List (List Tok) → List Lex
+  | [] => []
+  | ts :: rest => .lb :: (lexemesList ts ++ openLexemes rest)
+
+/-! ### Nesting depth -/
+
+mutual
+  /-- nesting depth of function literals: `0` for a literal token, `1 +` the depth of the body -/
+  def Tok.depth : Tok → Nat
+    | .fn body => depthList body + 1
+    | _ => 0
+  def depthList : List Tok → Nat
+    | [] => 0
+    | t :: ts => max t.depth (depthList ts)
+end
+
+/-- deepest nesting of function literals in a program (an argument group itself counts as 0) -/
+def Program.depth (p : Program) : Nat :=
+  p.foldl (fun m c => c.groups.foldl (fun m g => max m (depthList g)) m) 0
 
 /-! ### Comments -/
 
